@@ -50,6 +50,8 @@ var (
 	Hits    []uint32
 	Current *Task
 	ToSched = make(chan int)
+	TraceOn bool // Mode 1: record the sequence of sites
+	Trace   []int32
 )
 
 var globals = map[string]map[string]interface{}{}
@@ -69,6 +71,9 @@ func Y(site int32) {
 		Count++
 		if Hits != nil {
 			Hits[site]++
+		}
+		if TraceOn && len(Trace) < 1<<20 {
+			Trace = append(Trace, site)
 		}
 		if Limit > 0 && Count > Limit {
 			panic(StepLimit{})
